@@ -334,8 +334,48 @@ Verdict prop(Tape& t, Run& run) {
 			case 1: { // get -> relabel -> set [-> update]
 				NiVector<BSDismemberSkinInstance::PartitionInfo> info;
 				std::vector<int> parts;
+				// "foreign tool layout" (no tape bytes: first op of a four-op sequence on an un-mapped skin):
+				// the stored partition triangles start at another corner than their lowest index, as other
+				// tools write them, and the triangle->partition cache is gone, so the answer has to be derived
+				// from the partitions. It must then name, for every triangle, the partition that lists it.
+				bool foreign = false;
+				if (k == 0 && nops == 4) {
+					auto spf = skinPartOf(c.nif, c.shape, nullptr);
+					if (spf && !spf->bMappedIndices && spf->partitions.size() >= 2) {
+						for (auto& pb : spf->partitions) {
+							for (auto& tr : pb.triangles)
+								tr = Triangle(tr.p2, tr.p3, tr.p1);
+							for (auto& tr : pb.trueTriangles)
+								tr = Triangle(tr.p2, tr.p3, tr.p1);
+						}
+						spf->triParts.clear();
+						foreign = true;
+						run.cls("foreign-layout-partitions");
+					}
+				}
 				if (!c.nif.GetShapePartitions(c.shape, info, parts))
 					break;
+				if (foreign) {
+					auto spf = skinPartOf(c.nif, c.shape, nullptr);
+					std::vector<Triangle> st;
+					c.shape->GetTriangles(st);
+					std::map<uint64_t, std::vector<int>> where; // triangle -> partitions listing it
+					std::map<uint64_t, int> timesInShape;
+					for (auto& tr : st)
+						timesInShape[triKey(tr)]++;
+					for (size_t pi = 0; spf && pi < spf->partitions.size(); pi++) {
+						bool okm = true;
+						for (auto& tr : partTrueTris(*spf, spf->partitions[pi], okm))
+							where[triKey(tr)].push_back(static_cast<int>(pi));
+					}
+					for (size_t i = 0; spf && i < st.size() && i < parts.size(); i++) {
+						auto w = where.find(triKey(st[i]));
+						if (timesInShape[triKey(st[i])] != 1 || w == where.end() || w->second.size() != 1)
+							continue; // ambiguous: listed twice or nowhere
+						if (parts[i] != w->second[0])
+							return failIf("GetShapePartitions assigns triangle " + std::to_string(i) + " to partition " + std::to_string(parts[i]) + " but only partition " + std::to_string(w->second[0]) + " lists it (partition triangles stored starting at another corner, cache dropped)", "derived-assignment", "foreign layout");
+					}
+				}
 				int p = static_cast<int>(info.size());
 				std::vector<int> req(parts.size());
 				bool hadSpecial = false;
